@@ -597,6 +597,11 @@ pub fn family(name: &str, param: usize, ws: &Ws) -> Doc {
             // ~40 bytes per unit on average
             Tree::Arr((0..param / 30 + 1).map(unit).collect())
         }
+        // several big sibling containers: a node's parent then opens thousands of BP positions (several rank /
+        // excess directory blocks) below it while a big earlier sibling lies in between -- what upward navigation
+        // (parent / enclose, and the path builders on top of it) has to get across
+        "siblings" => Tree::Obj((0..3).map(|k| (k, Tree::Arr((0..param).map(|i| Tree::Leaf((i + k) % nleaves)).collect()))).collect()),
+        "siblings-arr" => Tree::Arr((0..3).map(|k| if k == 1 { Tree::Obj(vec![(0, Tree::Arr((0..param).map(|i| Tree::Leaf(i % nleaves)).collect()))]) } else { Tree::Arr((0..param).map(|i| Tree::Leaf((i + k) % nleaves)).collect()) }).collect()),
         o => panic!("unknown family {o}"),
     };
     render(&a, &tree, ws, json!({"family": name, "param": param, "ws": ws.to_json()}))
@@ -742,6 +747,10 @@ pub fn family_list(quick: bool) -> Vec<(&'static str, usize)> {
         v.push(("array", n));
         v.push(("array-obj", n.min(20_000)));
         v.push(("object", n.min(5_000)));
+    }
+    for &n in (if quick { &[700usize, 1200][..] } else { &[700usize, 1200, 2100, 5000][..] }) {
+        v.push(("siblings", n));
+        v.push(("siblings-arr", n));
     }
     for z in 1..=(if quick { 8 } else { 20 }) {
         v.push(("sparse", z));
